@@ -673,8 +673,8 @@ def r12_stack_top(ctx, F):
         if f.crate != "starlark" or "cheap_call_stack::CheapCallStack" not in f.qpath:
             continue
         for c in f.calls:
-            if c.bb in f.cleanup or c.indirect or not re.search(r"ops::Index(Mut)?<.*>>::index(_mut)?$", c.name) \
-                    or "Range<usize>" not in c.full or "RangeTo" in c.full:
+            if c.bb in f.cleanup or c.indirect or not (SLICE_CALL.search(c.name) or re.search(
+                    r"ops::Index(Mut)?<.*>>::index(_mut)?$", c.name)) or "Range<usize>" not in c.full or "RangeTo" in c.full:
                 continue
             start_const = None
             for o in origins(f, c.args[1], pass_calls=None):
@@ -714,7 +714,11 @@ def r14_format_parser_ascii_steps(ctx, F):
             for v, t in info["targets"].items():
                 if isinstance(v, int) and 0 <= v < 128:
                     cut.add((b, t))
-    unguarded = f.reach(0, cut_edges=cut)
+    # an examination justifies the step that follows it, not one after another `eat` has already consumed what was
+    # examined: restart the search behind every eat
+    eats = [c for c in f.calls if c.bb not in f.cleanup and re.search(r"StringView::<'a>::eat$", c.name)]
+    starts = [0] + [b for c in eats for b in f.succs(c.bb)]
+    unguarded = f.reach(starts, cut_edges=cut)
     n = 0
     for c in f.calls:
         if c.bb in f.cleanup or not re.search(r"StringView::<'a>::eat$", c.name) or not c.args[1].startswith("const"):
